@@ -324,9 +324,14 @@ def MTagIn.prepare (t : MTagIn α) (maxIndex : Nat) : Except Err (List (α × α
     | .error x => .error x
     | .ok _ => .ok maxExt
 
-/-- `getOffsetAndCount(const MultiTag &, const DataArray &, indices, offsets, counts, match)`;
-    `indices` must be non-empty (the C++ dereferences `max_element` of it) -/
+/-- `getOffsetAndCount(const MultiTag &, const DataArray &, indices, offsets, counts, match)` -/
 def mtagOffsetCount (t : MTagIn α) (indices : List Nat) : Except Err (List (List Nat × List Nat)) :=
+  if indices.isEmpty then
+    -- nothing is requested (all positions of a multi-tag that has none): the C++ returns before it looks at an index
+    match t.maxExt0 with
+    | .error x => .error x
+    | .ok _ => .ok []
+  else
   match t.prepare (indices.foldl max 0) with
   | .error x => .error x
   | .ok maxExt => mapExcept (t.row maxExt) indices
@@ -365,6 +370,7 @@ def mtagFeatureRegions (t : MTagIn α) (indices : List Nat) (lt : LinkType) (fdi
   match lt with
   | .tagged => mtagRegions { t with dims := fdims, shape := fshape } indices
   | _ =>
+    if indices.isEmpty then .ok [] else      -- all positions of a multi-tag that has none: no views
     if indices.foldl max 0 ≥ t.positions.length then .error .outOfBounds else
     match lt with
     | .indexed =>
